@@ -107,12 +107,15 @@ consumed while the list grows, so a line is skipped if it is already present, *i
 same batch. -/
 def appendPatterns (cur batch : List String) : List String := batch.foldl appendNew cur
 
-/-- `MHLIgnoreSpec.set_patterns(existing, new_list, file_lines)`; `existing = none` or empty ⇒ defaults -/
+/-- the starting list of `set_patterns`: the existing patterns, or the defaults when there are none -/
+def basePatterns (existing : Option (List String)) : List String :=
+  match existing with
+  | some l => if l.isEmpty then appendPatterns [] Gen.defaultIgnore else appendPatterns [] l
+  | none => appendPatterns [] Gen.defaultIgnore
+
+/-- `MHLIgnoreSpec.set_patterns(existing, new_list, file_lines)` -/
 def setPatterns (existing : Option (List String)) (cli : List String) (fileLines : List String) : List String :=
-  let base := match existing with
-    | some l => if l.isEmpty then appendPatterns [] Gen.defaultIgnore else appendPatterns [] l
-    | none => appendPatterns [] Gen.defaultIgnore
-  let withCli := if cli.isEmpty then base else appendPatterns base cli
+  let withCli := if cli.isEmpty then basePatterns existing else appendPatterns (basePatterns existing) cli
   if fileLines.isEmpty then withCli else appendPatterns withCli fileLines
 
 /-- the matcher is a parameter: `pathspec.PathSpec.from_lines("gitwildmatch", patterns).match_file(relpath)` -/
